@@ -594,6 +594,15 @@ func runCheck(c *propCfg, tier string) int {
 		_ = os.MkdirAll(filepath.Dir(dst), 0o755)
 		_ = os.WriteFile(dst, raw, 0o644)
 		fmt.Printf("--- failure (shard %s) ---\n%s\n", filepath.Base(r.base), firstLines(replayMsg(cand), 30))
+		if lb, err := os.ReadFile(r.logPath); err == nil {
+			if i := strings.Index(string(lb), "WARNING: DATA RACE"); i >= 0 {
+				fmt.Printf("race detector report:\n%s\n", firstLines(string(lb[i:]), 28))
+			} else if i := strings.Index(string(lb), "WATCHDOG:"); i >= 0 {
+				fmt.Printf("%s\n", firstLines(string(lb[i:]), 3))
+			} else if isCrumb {
+				fmt.Printf("process output (tail):\n%s\n", logTail)
+			}
+		}
 		violations = append(violations, dst)
 	}
 
